@@ -23,7 +23,9 @@ GARB = {1: ["@@", "x", "y"], 2: ["1", "=", "=", "2"], 3: ["then", "end", "do"], 
         # statements cut short: an assignment without its right-hand side, a call without a name
         6: ["total", "(", "1 ) ="], 7: ["call", "(", "x )"],
         # an unbalanced quote in the garbage
-        8: ["this", "isn't", "Fortran"]}
+        8: ["this", "isn't", "Fortran"],
+        # line noise that starts like a preprocessor line (the reader hands it over as a directive; it is none): one line only
+        9: ["#$%@ nonsense"], 10: ["#pragma once"]}
 
 
 def cpp_norm(text):
@@ -272,6 +274,16 @@ def split_at(s, where):
     lab = ("%d " % s["label"]) if s["label"] else ""
     cn = (s["cname"] + ": ") if s["cname"] else ""
     toks = layout_tokens(s["text"])
+    if where in (8, 9) and (lab or cn):
+        # inside the prefix of the statement: 8 behind its first part (the label: '10 &' / 'c1: do ...'; without a label the
+        # construct name: 'c1 &' / ': do ...'), 9 behind the whole prefix ('10 c1: &' / 'do ...')
+        if where == 9:
+            return (lab + cn).rstrip(), join_tokens(toks)
+        if lab:
+            return lab.rstrip(), cn + join_tokens(toks)
+        return s["cname"], ": " + join_tokens(toks)
+    if where in (8, 9):
+        where = 1
     k = max(1, min(len(toks) - 1, (len(toks) * where + 7) // 8))
     return lab + cn + join_tokens(toks[:k]), join_tokens(toks[k:])
 
